@@ -149,114 +149,108 @@ def one_header(rec, M, hid, gen, S, Mm, A):
         return
     padded = [False]
     mngrs = {}
-
-    def union_unrounded(agg, seen=None):
-        """does @agg hold (by value) a union whose largest member is not a multiple of the
-        union's alignment?  (gcc rounds the union's size up; known miasm defect class)"""
-        seen = set() if seen is None else seen
-        if id(agg) in seen:
-            return False
-        seen.add(id(agg))
-        if agg.kind == "union" and agg.tag:
-            gsize, galign = S[("u", hid, agg.tag)]
-            biggest = max(Mm[("u", hid, agg.tag, n)][1] for n, _ in M.flat_members(agg))
-            if biggest % galign:
-                return True
-        for m in agg.members:
-            if m.base[0] == "agg" and m.ptr == 0 and union_unrounded(m.base[1], seen):
-                return True
-            if m.base[0] == "agg" and m.ptr == 0 and m.base[1].kind == "union" and not m.base[1].tag:
-                # anonymous union: size from its members
-                sub = m.base[1]
-                sizes = [Mm[("u", hid, owner_of_anon(agg), n)][1] for n, _ in M.flat_members(sub)
-                         if ("u", hid, owner_of_anon(agg), n) in Mm]
-                aligns = [a for a in (1, 2, 4, 8, 16) if sizes and max(sizes) % a == 0]
-                # conservative: flag when the biggest member is not a multiple of 16/8/4/2 (some padding may be needed)
-                if sizes and max(sizes) % 2:
-                    return True
-        return False
-
-    def owner_of_anon(agg):
-        return agg.tag
-    itag = " [names an aggregate defined inline elsewhere]" if h.inline_refs else ""
-    utag_cache = {}
-
-    def utag(agg, variant):
-        if variant != "u":
-            return ""
-        a = agg
-        while a.tag is None:
-            a = owner[id(a)]
-        if id(a) not in utag_cache:
-            utag_cache[id(a)] = " [holds a union whose largest member is not a multiple of its alignment]" \
-                if union_unrounded(a) else ""
-        return utag_cache[id(a)]
+    layout_diff = [False]
     if h.inline_refs:
         rec.count("feature:inline_tag_reference")
 
-    def compare(variant, vname, objc, agg, w):
-        """@objc against gcc's numbers for @agg; recursion into inline/anonymous members"""
-        if agg.tag:
-            rec.count("aggregates_compared:" + vname)
-            gsize, galign = S[(variant, hid, agg.tag)]
-            if objc.size != gsize or objc.align != galign:
-                what = []
-                if objc.size != gsize:
-                    what.append("size")
-                if objc.align != galign:
-                    what.append("alignment")
-                rec.fail("%s %s differs from gcc (%s)%s%s" % (agg.kind, "/".join(what), vname, itag, utag(agg, variant)),
-                         "%s: miasm size %d align %d, gcc size %d align %d" % (
-                             agg.ref(), objc.size, objc.align, gsize, galign), w)
-        if not isinstance(objc, (ObjCStruct, ObjCUnion)):
-            rec.fail("aggregate is not an ObjCStruct/ObjCUnion (%s)%s" % (vname, itag),
-                     "%s gives %r" % (agg.ref() if agg.tag else "anonymous", objc), w)
-            return
-        fields = [(n, o, off, sz) for n, o, off, sz in objc.fields if not n.startswith("__PAD__")]
-        if len(fields) != len(agg.members):
-            rec.fail("member list differs from the declaration (%s)%s" % (vname, itag),
-                     "%s: miasm %s, declared %s" % (agg.ref() if agg.tag else "anonymous",
-                                                    [f[0] for f in fields], [m.name for m in agg.members]), w)
-            return
-        prev_end = 0
-        for (name, fobjc, off, size), m in zip(fields, agg.members):
+    def leaf(m):
+        # element size/alignment of a member that is not an aggregate by value, from gcc
+        owner_tag = member_owner[id(m)]
+        off, size, align = Mm[("u", hid, owner_tag, m.name)]
+        n = 1
+        for d in m.dims:
+            n *= d
+        return size // n, align
+
+    member_owner = {}
+
+    def index_members(agg, tag):
+        for m in agg.members:
             if m.how == "anon":
-                compare_anon(variant, vname, fobjc, m.base[1], off, agg, w)
-                continue
-            if name != m.name:
-                rec.fail("member name differs from the declaration (%s)" % vname, "%s vs %s" % (name, m.name), w)
-                return
-            goff, gsz = Mm[(variant, hid, owner_tag(agg), name)] if owner_tag(agg) else (None, None)
-            if goff is not None:
-                rec.count("members_compared")
-                if variant == "u" and goff > prev_end:
-                    padded[0] = True
-                prev_end = max(prev_end, goff + gsz)
-                if off + agg_base.get(id(agg), 0) != goff:
-                    rec.fail("member offset differs from gcc (%s)%s%s" % (vname, itag, utag(agg, variant)),
-                             "%s.%s: miasm %d, gcc %d" % (owner_tag(agg), name, off + agg_base.get(id(agg), 0), goff), w)
-                elif fobjc.size != gsz or size != gsz:
-                    rec.fail("member size differs from gcc (%s)%s%s" % (vname, itag, utag(agg, variant)),
-                             "%s.%s: miasm %d/%d, gcc %d" % (owner_tag(agg), name, fobjc.size, size, gsz), w)
-            if m.how == "inline":
-                sub = fobjc
+                index_members(m.base[1], tag)
+            else:
+                member_owner[id(m)] = tag
+                if m.how == "inline":
+                    index_members(m.base[1], m.base[1].tag)
+    for agg in h.aggs:
+        if agg.toplevel:
+            index_members(agg, agg.tag)
+
+    def miasm_layout(objc):
+        """(size, align, {flat member name: offset}) of an ObjCStruct/ObjCUnion"""
+        offs = {}
+
+        def walk(o, base):
+            for name, fobjc, off, size in o.fields:
+                if name.startswith("__PAD__"):
+                    continue
+                if ast.is_anonymous_name(name) and isinstance(fobjc, (ObjCStruct, ObjCUnion)):
+                    walk(fobjc, base + off)
+                else:
+                    offs[name] = base + off
+        walk(objc, 0)
+        return objc.size, objc.align, offs
+
+    def compare(variant, vname, objc, agg, w):
+        packed = (variant == "p")
+        rec.count("aggregates_compared:" + vname)
+        if not isinstance(objc, (ObjCStruct, ObjCUnion)):
+            rec.fail("aggregate is not an ObjCStruct/ObjCUnion (%s)" % vname, "%s gives %r" % (agg.ref(), objc), w)
+            return
+        got = miasm_layout(objc)
+        names = [n for n, _ in M.flat_members(agg)]
+        gcc = (S[(variant, hid, agg.tag)][0], S[(variant, hid, agg.tag)][1],
+               {n: Mm[(variant, hid, agg.tag, n)][0] for n in names})
+        ref = M.model_layout(agg, leaf, packed=packed)
+        if ref != gcc:
+            raise RuntimeError("reference layout model disagrees with gcc for %s (%s): %r vs %r\n%s" % (
+                agg.ref(), vname, ref, gcc, text))
+        rec.count("members_compared", len(names))
+        prev_end = 0
+        for n in sorted(names, key=lambda x: gcc[2][x]):
+            if gcc[2][n] > prev_end and variant == "u":
+                padded[0] = True
+            prev_end = max(prev_end, gcc[2][n] + Mm[(variant, hid, agg.tag, n)][1])
+        if got != gcc:
+            layout_diff[0] = True
+            mech = "unexplained"
+            cands = [("aggregate defined inline elsewhere resolved as an empty struct",
+                      dict(inline_ref_empty=True))]
+            if not packed:
+                cands = [("union size not rounded up to its alignment", dict(round_unions=False))] + cands + \
+                    [("union size not rounded up to its alignment + aggregate defined inline elsewhere "
+                      "resolved as an empty struct", dict(round_unions=False, inline_ref_empty=True))]
+            for name, kw in cands:
+                if M.model_layout(agg, leaf, packed=packed, **kw) == got:
+                    mech = name
+                    break
+            diffs = []
+            if got[0] != gcc[0]:
+                diffs.append("size %d vs %d" % (got[0], gcc[0]))
+            if got[1] != gcc[1]:
+                diffs.append("alignment %d vs %d" % (got[1], gcc[1]))
+            if set(got[2]) != set(gcc[2]):
+                diffs.append("members %s vs %s" % (sorted(got[2]), sorted(gcc[2])))
+            else:
+                diffs += ["%s at %d vs %d" % (n, got[2][n], gcc[2][n]) for n in names if got[2][n] != gcc[2][n]][:4]
+            rec.fail("%s layout differs from gcc (%s) [%s]" % (agg.kind, vname, mech),
+                     "%s: miasm vs gcc: %s" % (agg.ref(), "; ".join(diffs)), w)
+        # aggregates defined inline: compare the member's own ObjC
+        fields = {}
+
+        def collect(o):
+            for name, fobjc, off, size in o.fields:
+                if ast.is_anonymous_name(name) and isinstance(fobjc, (ObjCStruct, ObjCUnion)):
+                    collect(fobjc)
+                else:
+                    fields[name] = fobjc
+        collect(objc)
+        for n, m in M.flat_members(agg):
+            if m.how == "inline" and n in fields:
+                sub = fields[n]
                 for _ in m.dims:
                     sub = getattr(sub, "objtype", sub)
-                compare(variant, vname, sub, m.base[1], w)
-
-    agg_base = {}       # anonymous aggregate -> offset in its tagged owner
-    owner = {}
-
-    def owner_tag(agg):
-        a = agg
-        while a.tag is None:
-            a = owner[id(a)]
-        return a.tag
-
-    def compare_anon(variant, vname, fobjc, sub, off, parent, w):
-        owner[id(sub)] = parent
-        agg_base[id(sub)] = agg_base.get(id(parent), 0) + off
-        compare(variant, vname, fobjc, sub, w)
+                compare(variant, vname, sub, m.base[1], dict(w, aggregate=m.base[1].ref()))
 
     for variant, cls in (("u", CTypesManagerNotPacked), ("p", CTypesManagerPacked)):
         vname = "notpacked" if variant == "u" else "packed"
@@ -270,13 +264,12 @@ def one_header(rec, M, hid, gen, S, Mm, A):
             try:
                 objc = mngr.get_objc(cty)
             except Exception as exc:
-                rec.fail("get_objc raises %s at %s (%s)%s" % (type(exc).__name__, _frame(exc), vname, itag),
+                rec.fail("get_objc raises %s at %s (%s)" % (type(exc).__name__, _frame(exc), vname),
                          "%r for %s" % (exc, agg.ref()), w)
                 continue
-            try:
-                compare(variant, vname, objc, agg, w)
-            except KeyError as exc:
-                raise
+            compare(variant, vname, objc, agg, w)
+        if variant == "p":
+            continue
         # an aggregate defined inline must stay known by its tag (C: the tag has file scope)
         for agg in h.aggs:
             if agg.toplevel or not agg.tag:
@@ -288,17 +281,17 @@ def one_header(rec, M, hid, gen, S, Mm, A):
                 gsize, galign = S[(variant, hid, agg.tag)]
                 if objc.size != gsize:
                     rec.fail("aggregate defined inline inside another is not known by its tag afterwards",
-                             "%s (%s): get_objc gives size %d, gcc %d" % (agg.ref(), vname, objc.size, gsize),
+                             "%s: get_objc gives size %d, gcc %d" % (agg.ref(), objc.size, gsize),
                              dict(wit, aggregate=agg.ref()))
             except Exception as exc:
                 rec.fail("aggregate defined inline inside another is not known by its tag afterwards",
-                         "%s (%s): get_objc raises %r" % (agg.ref(), vname, exc), dict(wit, aggregate=agg.ref()))
+                         "%s: get_objc raises %r" % (agg.ref(), exc), dict(wit, aggregate=agg.ref()))
     if padded[0]:
         rec.count("feature:padding_needed")
-    accesses(rec, M, hid, gen, mngrs["u"], S, Mm, A, wit)
+    accesses(rec, M, hid, gen, mngrs["u"], S, Mm, A, wit, layout_diff[0])
 
 
-def accesses(rec, M, hid, gen, mngr, S, Mm, A, wit):
+def accesses(rec, M, hid, gen, mngr, S, Mm, A, wit, layout_diff):
     from miasm.core.ctypesmngr import CTypeStruct, CTypePtr
     from miasm.core.objc import CHandler
     from miasm.expression.expression import ExprId, ExprInt, ExprMem
@@ -313,7 +306,7 @@ def accesses(rec, M, hid, gen, mngr, S, Mm, A, wit):
         feats = sorted(ch.features - {"unary deref"})
         primary = None
         for f in ("(*p).m on a struct pointer", "p[i].m on a struct pointer", "anonymous member",
-                  "element of an array of unions", "& of an array element"):
+                  "element of an array of unions", "-> on a pointer to union", "& of an array element"):
             if f in ch.features:
                 primary = f
                 break
@@ -358,6 +351,9 @@ def accesses(rec, M, hid, gen, mngr, S, Mm, A, wit):
                          "%s: %s" % (key, what), w)
             elif primary:
                 rec.fail("access form not handled: %s" % primary, "%s: %s" % (key, what), w)
+            elif layout_diff and key.startswith("c_to_expr differs"):
+                rec.fail("access offset follows a layout that differs from gcc (reported per aggregate)",
+                         "%s: %s" % (key, what), w)
             else:
                 rec.fail(key, what, w)
         try:
